@@ -131,3 +131,145 @@ Definition roots_known (i : roots_in) : N :=
                 end) ans
   then 2%N else 0%N.
 Definition roots_judge := judge roots_model roots_oeqb roots_ok roots_known.
+
+(* =====================================================================================================================
+   History parts: ONE long-lived merkleroot.Processor (built by NewProcessor) driven over many rounds while everything
+   it reads changes between rounds. Each round is one case, judged against the model evaluated on that round's CURRENT
+   inputs only (the model keeps nothing between rounds).
+   ===================================================================================================================== *)
+Require Verif.Model.Consensus Verif.Model.CommitConsensus Verif.Model.CommitSM Verif.Check.C03_check Verif.Model.C02Hist.
+
+(* constructors used by the harness terms *)
+Definition hOut := CommitSM.mkOutcome.
+Definition hObs := CommitConsensus.mkObs.
+Definition hRmn := CommitConsensus.mkRmn.
+
+(* ---- part hist / sink C02_hist: Processor.Outcome ----
+   input (F, dest, MaxReportTransmissionCheckAttempts, MaxMerkleTreeSize, previous outcome as handed in, retry flag of
+   the query, attributed observations of this round); output: the outcome *)
+Definition hr_in := (Z * N * N * N * CommitSM.outcome * bool * list CommitConsensus.aobs)%type.
+Definition hr_out := CommitSM.outcome.
+
+Definition h_conv_root (v : CommitConsensus.root_t) : CommitSM.root := let '(c, a, (s, e), r) := v in (c, (s, e), a, r).
+(* the agreed RMN remote config: id agreed under the destination key, F read off an observation that carries that id *)
+Definition h_cfg (dest : N) (aos : list CommitConsensus.aobs) (c : CommitConsensus.cons) : CommitSM.rmn_cfg :=
+  match alookup dest (CommitConsensus.c_rmn c) with
+  | None => CommitSM.cfg_empty
+  | Some id =>
+      match find (fun ao : CommitConsensus.aobs => N.eqb (CommitConsensus.rc_id (CommitConsensus.o_rmn (snd ao))) id) aos with
+      | Some ao => (id, CommitConsensus.rc_f (CommitConsensus.o_rmn (snd ao)))
+      | None => CommitSM.cfg_empty
+      end
+  end.
+(* this round's consensus observation: C01 model on this round's observations *)
+Definition hr_cons (F : Z) (dest : N) (aos : list CommitConsensus.aobs) : option CommitSM.cons :=
+  match CommitConsensus.get_consensus F dest aos with
+  | Ok c => Some (CommitSM.mkCons (map (fun kv => h_conv_root (snd kv)) (CommitConsensus.c_roots c))
+                                  (CommitConsensus.c_onramp c) (CommitConsensus.c_offramp c) (h_cfg dest aos c))
+  | _ => None
+  end.
+
+Definition hr_model (i : hr_in) : hr_out :=
+  let '(F, dest, max, n, prev, retry, aos) := i in
+  CommitSM.get_outcome max n prev (CommitSM.mkQuery retry None) (hr_cons F dest aos).
+
+(* the C02 clauses on one round of a history, on the implementation's outcome:
+   selecting round  -> the selected intervals and the carried cursor are exactly those of THIS round's agreed maps
+                       (rng_ok: start = this round's agreed off-ramp next, no interval for a chain lacking either agreed
+                       number, whatever the previous outcome carried); nothing selected without consensus;
+   building round   -> nothing selected; every root reported is a root agreed in THIS round; a retry reproduces the
+                       previous outcome (so the recorded intervals survive unchanged);
+   waiting round    -> nothing selected, nothing reported *)
+Definition hr_ok (i : hr_in) (o : hr_out) : bool :=
+  let '(F, dest, max, n, prev, retry, aos) := i in
+  match CommitSM.next_state (CommitSM.o_type prev) with
+  | CommitSM.Selecting =>
+      match hr_cons F dest aos with
+      | None => match CommitSM.o_ranges o with [] => true | _ => false end
+      | Some c =>
+          Z.eqb (CommitSM.o_type o) CommitSM.T_selected &&
+          rng_ok (CommitSM.c_on c, CommitSM.c_off c, n) (CommitSM.o_ranges o, CommitSM.o_off o) &&
+          match CommitSM.o_roots o with [] => true | _ => false end
+      end
+  | CommitSM.Building =>
+      if retry then C03_check.outcome_eqb o prev
+      else match CommitSM.o_ranges o with [] => true | _ => false end &&
+           match hr_cons F dest aos with
+           | None => match CommitSM.o_roots o with [] => true | _ => false end
+           | Some c => forallb (fun r => existsb (CommitSM.root_eqb r) (CommitSM.c_roots c)) (CommitSM.o_roots o) &&
+                       nodupb N.eqb (map CommitSM.root_chain (CommitSM.o_roots o))
+           end
+  | CommitSM.Waiting =>
+      match CommitSM.o_ranges o with [] => true | _ => false end &&
+      match CommitSM.o_roots o with [] => true | _ => false end
+  end.
+Definition hr_judge := judge hr_model C03_check.outcome_eqb hr_ok (fun _ => 0%N).
+
+(* ---- part hist / sink C02_hobs: Processor.Observation of the same long-lived instance ----
+   input: previous outcome (type, recorded intervals), retry flag, and the environment of THIS round:
+     chain support (SupportedChains, KnownSourceChainsSlice, SupportsDestChain; None = error),
+     curse info (None = read error; (global or destination curse, cursed source chains)),
+     off-ramp reader (mode 0 honest / 1 error / 2 one answer short / 3 one long; cursor per chain),
+     on-ramp reader (expected next per chain; None or absent = error),
+     message reader answer per chain, on-ramp address per chain, id of the zero hash, table of internal hashes,
+     home chain fChain (None = error)
+   output: (MerkleRoots, OnRampMaxSeqNums, OffRampNextSeqNums, FChain sorted by chain) *)
+Definition ho_env := (option (list N) * option (list N) * option bool * option (bool * list N))%type.
+Definition ho_in :=
+  (Z * list (N * (N * N)) * bool * ho_env * (N * list (N * N)) * list (N * option N) *
+   (list (N * option (list msg)) * list (N * N) * N * list ((N * N) * N)) * option (list (N * Z)))%type.
+Definition ho_out := (list root_obs * list (N * N) * list (N * N) * list (N * Z))%type.
+
+Definition ho_next (mode : N) (cur : list (N * N)) (chains : list N) : option (list N) :=
+  if N.eqb mode 1 then None
+  else let ans := map (fun k => match alookup k cur with Some v => v | None => 0%N end) chains in
+       if N.eqb mode 2 then Some (removelast ans)
+       else if N.eqb mode 3 then Some (ans ++ [1%N])
+       else Some ans.
+Definition ho_expected (ex : list (N * option N)) (k : N) : option N :=
+  match alookup k ex with Some a => a | None => None end.
+Definition ho_prev (t : Z) (ranges : list (N * (N * N))) : CommitSM.outcome :=
+  CommitSM.mkOutcome t ranges [] [] 0 [] CommitSM.cfg_empty.
+
+Definition ho_model (i : ho_in) : ho_out :=
+  let '(t, ranges, retry, (sup, known, sd, curse), (mode, cur), ex, (ans, addrs, zero, tbl), fch) := i in
+  let ob := C02Hist.get_observation (tbl_h tbl) zero sup known sd curse (ho_next mode cur) (ho_expected ex)
+                                    (reader_of ans) (fun k => alookup k addrs) fch (ho_prev t ranges) retry in
+  (C02Hist.ob_roots ob, C02Hist.ob_on ob, C02Hist.ob_off ob, C02Hist.ob_fchain ob).
+
+Definition zc_eqb : N * Z -> N * Z -> bool := pair_eqb N.eqb Z.eqb.
+Definition ho_oeqb (a b : ho_out) : bool :=
+  let '(r1, on1, off1, f1) := a in let '(r2, on2, off2, f2) := b in
+  roots_oeqb r1 r2 && list_eqb sc_eqb on1 on2 && list_eqb sc_eqb off1 off2 && list_eqb zc_eqb f1 f2.
+
+Definition in_opt (k : N) (l : option (list N)) : bool := match l with Some x => memN k x | None => false end.
+
+(* roots: only in a non-retry building round, only for an interval the previous outcome recorded, justified by THIS
+   round's reader answer / address / support (root_justified, the root clause of C02);
+   off-ramp numbers: only in selecting / waiting rounds, only for known, non-cursed chains, the off-ramp's current value;
+   on-ramp numbers: only in selecting rounds, for known supported chains, expected next - 1 as read in this round *)
+Definition ho_ok (i : ho_in) (o : ho_out) : bool :=
+  let '(t, ranges, retry, (sup, known, sd, curse), (mode, cur), ex, (ans, addrs, zero, tbl), fch) := i in
+  let '(roots, on, off, f) := o in
+  let st := CommitSM.next_state t in
+  let building := CommitSM.state_eqb st CommitSM.Building && negb retry in
+  roots_ok (sup, (if building then ranges else []), ans, addrs, zero, tbl) roots &&
+  nodupb N.eqb (map fst off) && nodupb N.eqb (map fst on) &&
+  forallb (fun p : N * N =>
+             negb (CommitSM.state_eqb st CommitSM.Building) &&
+             match sd with Some true => true | _ => false end &&
+             in_opt (fst p) known &&
+             match curse with
+             | Some (blocked, cursed) => negb blocked && negb (memN (fst p) cursed)
+             | None => false
+             end &&
+             (if N.eqb mode 0 then N.eqb (snd p) (match alookup (fst p) cur with Some v => v | None => 0%N end) else false)) off &&
+  forallb (fun p : N * N =>
+             CommitSM.state_eqb st CommitSM.Selecting && in_opt (fst p) known && in_opt (fst p) sup &&
+             match ho_expected ex (fst p) with
+             | Some v => negb (N.eqb v 0) && N.eqb (snd p) (v - 1)
+             | None => false
+             end) on &&
+  (if CommitSM.state_eqb st CommitSM.Building && retry then match f with [] => true | _ => false end
+   else list_eqb zc_eqb f (C02Hist.observe_fchain fch)).
+Definition ho_judge := judge ho_model ho_oeqb ho_ok (fun _ => 0%N).
